@@ -441,6 +441,70 @@ def batch_indices_check(chk):
             chk.harness_error(_Ob.signature, "encoding of _generate_batch_indices is not a slice of one permutation, but the real function behaves like one at 40 keys")
 
 
+def validation_loss_obligation(chk):
+    """one iteration of the captured loop body with a validation model that holds OTHER data (same size), the optimiser re-bound to optax's
+    zero update (so that the new position stays an interpretable term): the entry written into history['loss_validation'] is the negative
+    log-probability of the VALIDATION model (its own carried state, its own data) at the new position, the entry of loss_train that of the
+    training model -- the stopping rule and the restored optimum are computed from exactly these series"""
+    import liesel.goose as gs
+    import optax
+    mval_box = {}
+
+    def other(m):
+        mval_box["m"] = small_models(n=5, seed=3)
+        return mval_box["m"]
+    loc, cap = capture(other, 6, 2, optimizer=optax.set_to_zero())
+    init = cap.init
+    mtrain = loc["model_train"] if "model_train" in loc else loc.get("model")
+    ival = gs.LieselInterface(mval_box["m"])
+    itr = gs.LieselInterface(small_models())
+
+    def one(val):
+        v1 = cap.body(dict(val))
+        pos = v1["position"]
+        want_v = -ival.log_prob(ival.update_state(pos, val["model_state_validation"]))
+        want_t = -itr.log_prob(itr.update_state(pos, val["model_state_train"]))
+        return dict(hv=v1["history"]["loss_validation"], ht=v1["history"]["loss_train"], hv0=val["history"]["loss_validation"], i=v1["while_i"], want_v=want_v, want_t=want_t)
+    flat, tree = jax.tree_util.tree_flatten(init)
+    paths = [jax.tree_util.keystr(p_) for p_, _ in jax.tree_util.tree_flatten_with_path(init)[0]]
+    sym = []
+    for p_, a in zip(paths, flat):
+        a = np.asarray(a)
+        if p_ == "['key']":
+            sym.append(root_key("vcarry"))
+        elif a.dtype.kind in "iub":
+            sym.append(a)
+        else:
+            sym.append(sym_array("vb" + "".join(ch for ch in p_ if ch.isalnum()), a.shape))
+    sym_val = jax.tree_util.tree_unflatten(tree, sym)
+    enc = chk.note_enc(Enc("optim_flat.body_fun, one iteration with a validation model holding other data (zero-update optimiser)", one, (init,), (sym_val,), key_roots={"vcarry": init["key"]}, poison_ok=True))
+
+    def goal(V):
+        ic = cells(V.out["i"])[0]
+        ic = z3.simplify(ic) if z3.is_expr(ic) else ic
+        if z3.is_expr(ic):
+            i = ic.as_long() if z3.is_int_value(ic) else (int(ic.as_fraction()) if z3.is_rational_value(ic) else None)
+        else:
+            i = int(np.asarray(ic).reshape(-1)[0])
+        hv, ht, hv0 = cells(V.out["hv"]), cells(V.out["ht"]), cells(V.out["hv0"])
+        if i is None or any(isinstance(c, Poison) for c in (hv[i], ht[i], cells(V.out["want_v"])[0], cells(V.out["want_t"])[0])):
+            raise Inconclusive("the recorded losses are not interpretable terms on this tree")
+        tol = z3.RealVal("1/100000")
+        dv, dt = hv[i] - cells(V.out["want_v"])[0], ht[i] - cells(V.out["want_t"])[0]
+        return [], z3.And(dv <= tol, dv >= -tol, dt <= tol, dt >= -tol, *[hv[j] == hv0[j] for j in range(len(hv)) if j != i and not isinstance(hv[j], Poison)])
+    def replay(ob, model, rng):
+        out = one(init)
+        i = int(np.asarray(out["i"]))
+        got_v, want_v = float(np.asarray(out["hv"])[i]), float(np.asarray(out["want_v"]))
+        got_t, want_t = float(np.asarray(out["ht"])[i]), float(np.asarray(out["want_t"]))
+        bad = abs(got_v - want_v) > 1e-4 * (1 + abs(want_v)) or abs(got_t - want_t) > 1e-4 * (1 + abs(want_t))
+        return dict(reproduced=bool(bad), inputs=dict(iteration=i, note="optim_flat's own initial carry; training and validation model hold different data of equal size"),
+                    observed=dict(recorded_validation_loss=got_v, validation_model_neg_log_prob=want_v, recorded_training_loss=got_t, training_model_neg_log_prob=want_t),
+                    note="one real loop iteration (zero-update optimiser)")
+    return [Obligation("optim_flat loop body: the recorded validation loss is the validation model's negative log-probability (its own data and carried state) at the new position, "
+                       "the recorded training loss the training model's; earlier entries untouched", [enc], goal, signature="loop-body:validation-loss", timeout_s=120, replay=replay)], enc
+
+
 def loop_body_check(chk, batch_size=2):
     loc, cap = capture(None, 6, 2, batch_size=batch_size)
     init = cap.init
@@ -539,6 +603,9 @@ def main():
             obs += o
             chk.validated_points += enc.validate(chk.rng, npoints=1)
     chk.functions += ["liesel.goose.optim.optim_flat (pre-loop part executed, statements after the while_loop sliced from the source and traced)"]
+    rv = chk.guarded("loop-body:validation-loss:trace", "tracing one loop iteration with a validation model", validation_loss_obligation, chk)
+    if rv:
+        obs += rv[0]
     res = chk.guarded("two-params:trace", "tracing the post-loop slice with two parameters", two_param_obligation, chk, MAXIT, PAT, wis[-1])
     if res:
         obs += res[0]
